@@ -266,7 +266,6 @@ def _rationalise(x):
 
 class Sym:
     __slots__ = ("t",)
-    __array_priority__ = 1000.0
 
     def __init__(self, terms=None):
         self.t = terms if terms is not None else {}
